@@ -2,6 +2,8 @@ package rules
 
 import (
 	"fmt"
+	"go/token"
+	"go/types"
 	"strings"
 
 	. "htcheck/internal/core"
@@ -175,4 +177,70 @@ func c20ReportWhenQuiet(c *Ctx) {
 		}
 	}
 	c.Check(n > 0, rule, "knockDetector reports", p.Pos(kd.Pos()), "", "no report site found in the detector")
+}
+
+// c20FrameObjectsPerFrame: the handlers of the receive loop keep what they were given – handleUDP builds the knock record
+// and the event in a goroutine of its own from the frame and IP header it was passed. Those objects therefore belong to
+// one frame: every pointer the loop hands to a handle* method is produced inside the loop's iteration (a Parse call or an
+// allocation in the loop body). Decoding every frame into one object that lives outside the loop lets the next frame
+// overwrite the addresses a handler goroutine is still reading: a probe is then booked under the next frame's source.
+func c20FrameObjectsPerFrame(c *Ctx) {
+	p := c.P
+	const rule = "frame-objects-per-frame"
+	n := 0
+	for _, fn := range p.FuncsIn(canaryRel) {
+		if fn.Blocks == nil {
+			continue
+		}
+		for _, call := range Calls(fn) {
+			hf := call.Common().StaticCallee()
+			if hf == nil || !strings.HasPrefix(hf.Name(), "handle") || hf.Signature.Recv() == nil || NamedOf(hf.Signature.Recv().Type()) == nil || NamedOf(hf.Signature.Recv().Type()).Obj().Name() != "Canary" {
+				continue
+			}
+			if !InLoop(call.Block()) {
+				continue
+			}
+			for ai, a := range call.Common().Args {
+				if ai == 0 {
+					continue
+				}
+				pt, isPtr := a.Type().Underlying().(*types.Pointer)
+				if !isPtr {
+					continue
+				}
+				if _, isStruct := pt.Elem().Underlying().(*types.Struct); !isStruct {
+					continue
+				}
+				n++
+				key := fmt.Sprintf("%s passes %s to %s", shortFn(fn), typeShortT(a.Type()), hf.Name())
+				bad := ""
+				for _, lf := range leaves(a) {
+					switch x := lf.(type) {
+					case *ssa.Alloc:
+						if !InLoop(x.Block()) || x.Parent() != fn {
+							bad = "an object allocated outside the loop (" + p.InstrPos(x) + ")"
+						}
+					case *ssa.Call:
+						if !InLoop(x.Block()) {
+							bad = "the result of a call outside the loop (" + p.InstrPos(x) + ")"
+						}
+					case *ssa.Extract:
+						if in, isI := x.Tuple.(ssa.Instruction); isI && !InLoop(in.Block()) {
+							bad = "the result of a call outside the loop (" + p.InstrPos(in) + ")"
+						}
+					default:
+						if fv, isFV := lf.(*ssa.FreeVar); isFV {
+							bad = "the captured variable " + fv.Name() + " (declared outside the receive loop's goroutine)"
+						} else if ld, isLd := lf.(*ssa.UnOp); isLd && ld.Op == token.MUL {
+							if fv, isFV := ld.X.(*ssa.FreeVar); isFV {
+								bad = "the captured variable " + fv.Name() + " (declared outside the receive loop's goroutine)"
+							}
+						}
+					}
+				}
+				c.Check(bad == "", rule, key, p.InstrPos(call), "a value produced in this iteration of the loop", "the handler is handed "+bad+": it is the same object for every frame, and the handlers keep what they are given (handleUDP builds the knock record in a goroutine of its own), so the next frame overwrites the addresses of a probe that is still being recorded – its port is reported under another source")
+			}
+		}
+	}
+	c.Floor(rule, 4, "ethernet frame and IP header handed to handleTCP/handleUDP/handleICMP")
 }
